@@ -77,6 +77,7 @@ pub fn shrink(sc0: &Scenario, target: &Violation, max_tries: u32, max_wall_s: u6
                     class: TxClass::Any,
                 },
                 kind: kind.clone(),
+                delay_us: 0,
             });
         }
         attempt!(c);
